@@ -9,6 +9,8 @@ for k in $(seq 1 $n); do
   git -C $d/repo checkout -q --detach $(git -C /repo rev-parse HEAD); git -C $d/repo checkout -q -- .
   rsync -a --delete --exclude .git --exclude work --exclude replays --exclude harness/target /verif/ $d/verif/
   mkdir -p $d/verif/replays
+  # model-checking results, generated behaviours and tours are keyed by the hash of the spec files: share them
+  rsync -a --exclude '*_quick' --exclude '*_thorough' /verif/work/ $d/verif/work/
   [ -d $d/verif/harness/target ] || cp -r /verif/harness/target $d/verif/harness/target
   sed -i "s|/repo/crates|$d/repo/crates|g" $d/verif/harness/Cargo.toml
 done
